@@ -134,6 +134,16 @@ Theorem C05_mechanism_selection_is_eps_dp q q' eps sens i : 0 <= eps -> 0 < sens
   nth i (em_mechanism RNum q eps sens None) 0 <= exp eps * nth i (em_mechanism RNum q' eps sens None) 0.
 Proof. exact (em_mechanism_eps_dp q q' eps sens i). Qed.
 Print Assumptions C05_mechanism_selection_is_eps_dp.
+Theorem C05_adagrid_selection_is_eps_dp q q' eps sens i : 0 <= eps -> 0 < sens -> q <> [] -> (i < length q)%nat ->
+  Forall2 (fun a b => Rabs (a - b) <= sens) q q' ->
+  nth i (em_adagrid RNum q eps sens false) 0 <= exp eps * nth i (em_adagrid RNum q' eps sens false) 0.
+Proof. exact (em_adagrid_eps_dp q q' eps sens i). Qed.
+Print Assumptions C05_adagrid_selection_is_eps_dp.
+Theorem C05_mwem_selection_is_eps_dp q q' eps (bounded : bool) i : 0 <= eps -> q <> [] -> (i < length q)%nat ->
+  Forall2 (fun a b => Rabs (a - b) <= (if bounded then 2 else 1)) q q' ->
+  nth i (em_mwem RNum q eps bounded) 0 <= exp eps * nth i (em_mwem RNum q' eps bounded) 0.
+Proof. exact (em_mwem_eps_dp q q' eps bounded i). Qed.
+Print Assumptions C05_mwem_selection_is_eps_dp.
 Theorem C05_laplace_release_is_eps_dp eps D a a' x : 0 < eps -> 0 < D -> length a = length a' -> l1d a a' <= D ->
   lapvec (D / eps) a x <= exp eps * lapvec (D / eps) a' x.
 Proof. exact (laplace_mechanism_eps_dp eps D a a' x). Qed.
